@@ -36,7 +36,7 @@ var relevant = map[string][]string{
 func domains(chain, typ string, thorough bool) map[string][]interface{} {
 	a := func(l string) string { return scen.ExtAddr(chain, l) }
 	i := func(v int64) sdkmath.Int { return sdkmath.NewInt(v) }
-	memoCallTo := hex.EncodeToString(append(make([]byte, 31), 1)) // 32-byte word == 1 (send-call-to flag) if recognised
+	memoCallTo := hex.EncodeToString(cctypes.MemoSendCallTo.Bytes()) // the send-call-to flag
 	switch typ {
 	case "SendToFx":
 		return map[string][]interface{}{
